@@ -108,6 +108,7 @@ static std::string bad_release()
 // ---- 1. the allocator contract
 static void contract()
 {
+    vx::mark("contract");
     static const size_t SZ[4] = {1, 8, 100, 5000};
     for (size_t s0 : SZ)
     {
@@ -195,6 +196,7 @@ static void history(const char *name, Build build, Verify verify, Destroy destro
 
 static void containers()
 {
+    vx::mark("containers");
     // vector of ints: 40 pushes (several growth steps); a failed push must leave the contents and the storage as they were
     history("vec",
         [](std::string *why) -> void * {
